@@ -26,7 +26,7 @@ CLAIMS = {
    text="Each Counter handler (_setmod, _event_inc/dec/put/reset, __init__) is symbolically executed from /repo's current AST against a "
         "postcondition taken from the property statement (result = Python arithmetic reduced by floor-modulo, output in [0,M), type "
         "invariant preserved, modulo 0 refused); every per-path obligation is discharged by z3 for all inputs (int exactly, float as "
-        "real); aliases, handler tables and the call-level signature of 'put' are reflective scan obligations.",
+        "real); AddonPersistence.event (the event() of a Counter: scan) hands the handler's result through; aliases, handler tables and the call-level signature of 'put' are reflective scan obligations.",
    note="Trusted: pyvc's encoding of Python semantics, z3; SBlock.set_output contract (C02) with assumption A-C02; float = real "
         "arithmetic; amounts are numbers."),
  'C01': dict(
@@ -58,17 +58,24 @@ CLAIMS = {
         "bypasses the table, all conditions must be true and are consulted only for table events of an initialised FSM); the action "
         "order is an order automaton checked at every traced call (exit, on_exit, stop timer, entry [exit of intermediate], timer, "
         "calc_output, set_output, on_enter), and every cond/enter/exit must see, through fsm_event_data, the data of the event that "
-        "caused it (this found the chained-transition defect, fixed in /repo).  Control tables of the library FSMs are reflected.",
-   note="Trusted: pyvc encoding, z3; callbacks are user code behind an interface contract; set_output/Event.send contracts; "
-        "well-formed tables as precondition (FSM._build_tables/__init__ keyword parsing not under contract for arbitrary definitions)."),
+        "caused it (this found the chained-transition defect, fixed in /repo); _ctx_event sets the context variable of the context it "
+        "runs in and _event must run it in a copy.  FSM._build_tables and its add_transition closure (three loops with invariants, '|' "
+        "lists split and stripped) are executed from the real AST: every rule of EVENTS - None targets included - is in the transition "
+        "table under (event, source) for each of its sources or under (event, None), a second rule for the same pair and unknown "
+        "states are refused, states = STATES + timed states, every event is known, every timed state has its event and default "
+        "duration.  Control tables of the library FSMs are also reflected (scan).",
+   note="Trusted: pyvc encoding, z3; callbacks are user code behind an interface contract; set_output/Event.send contracts; str.split/"
+        "strip as uninterpreted functions.  Bounded only (labelled; ~300 generated definitions and instances through the real class "
+        "machinery): discovery of cond_/enter_/exit_ methods, the chain limit, 'nothing but the rules is in the table', FSM.__init__ "
+        "keyword parsing."),
  'C04': dict(
    text="FSM._start_timer/_set_timer/_stop_timer/stop and the timer part of _ctx_event are executed from the real AST with a "
         "quantifier-free timer invariant (ghost: number of live handles of the FSM = 1 iff _active_timer is live, else 0): effective "
         "duration = event item, else instance/class value; none is an error; INF never; <= 0 delivers at once without a handle; "
         "otherwise exactly one handle due at now+d calling event(timed_event); leaving/re-entering/stop cancels it, so at most one "
-        "timer is pending and nothing is pending after stop(); Timer.cond_start/cond_stop/calc_output against their truth tables. Timer.__init__: t_period excludes t_on/t_off and becomes t_on = t_off = period/2 in the arguments passed on.",
+        "timer is pending and nothing is pending after stop(); Timer.cond_start/cond_stop/calc_output against their truth tables. Timer.__init__: t_period excludes t_on/t_off and becomes t_on = t_off = period/2 in the arguments passed on. FSM._build_tables: every timed state of TIMERS gets its timed event and its default duration (time_period of the given value), no other state has one.",
    note="Trusted: asyncio call_later/TimerHandle contract (runs once, not before when, never after cancel): 'on time' and 'exactly "
-        "once' are this contract plus the invariant; float durations as reals, +inf encoded as 10^300; A-C08."),
+        "once' are this contract plus the invariant; float durations as reals, +inf encoded as 10^300; A-C08.  Bounded only (labelled): FSM.__init__ keyword parsing (t_STATE of an instance overrides the class default, None keeps it)."),
  'C05': dict(
    text="Circuit.init_sblock, _init_sblocks_sync_1/_2 (four loops with invariants), _init_sblocks_async, _run_tasks, run_forever, "
         "_check_started, wait_init and the early-initialisation branch of SBlock.event are executed from the real AST.  init_sblock: "
@@ -106,13 +113,14 @@ CLAIMS = {
         "entries, clock reads arbitrary): it sleeps only while the wake-up time is ahead (difference taken the short way round the "
         "clock) and never beyond it; a scheduled recalculation happens 0..2.5 s after its time for exactly the blocks registered for "
         "it; a time-tracking problem recalculates every registered block.  Two defects found by these obligations, replayed and fixed "
-        "in /repo (TypeError in the reset branch without alarms; wake-up times in hour 23 seen from after midnight).",
+        "in /repo (TypeError in the reset branch without alarms; wake-up times in hour 23 seen from after midnight).  The membership test of "
+        "the three interval classes and the comparison functions behind it (contracts shared with C13) are verified here too.",
    note="Trusted: pyvc encoding, z3; datetime values (order embedding, attribute ranges), bisect/sorted contracts, asyncio sleep/"
         "wait_for; interval constructors behind interface contracts (C13).  Not proved as one theorem: the whole-history statement "
         "(composition of the contracts) and millisecond accuracy (event loop / OS)."),
  'C08': dict(
    text="Circuit.run_forever, _stop_sblocks, _run_tasks, wait_init, _check_started, shutdown, is_current_task, check_not_finalized, "
-        "set_persistent_data, addblock, AddonMainTask.start/stop_async, OutputFunc.stop and OutputAsync.start/stop/stop_async are executed "
+        "set_persistent_data, addblock, _init_sblocks_async (the initialisation tasks are handed over as a list), AddonMainTask.start/stop_async, OutputFunc.stop, OutputAsync.start/stop/stop_async and the three OutputAsync control coroutines with the wrapper they start (every output task is finished - awaited, or cancelled and awaited - when the control task ends; gather must collect exceptions) are executed "
         "from the real AST; every await is an environment step under the guarantees "
         "proved elsewhere.  run_forever: an order automaton over the whole life cycle, checked at every traced call: set-up, start() once "
         "per block, the three initialisation steps in order after all blocks were started, _init_done only after a successful "
@@ -148,7 +156,9 @@ CLAIMS = {
         "with a quantified loop invariant: every combinational block is in eval_set, or fed by a queued block, or consistent; and the "
         "burst counter equals eval_cnt <= 3*N.  Proved for all circuits and all schedules (the await is an environment step under "
         "the delivery guarantee): at the idle point every combinational block is consistent; the instability error is raised only "
-        "when the counter has reached 3*N, before a further evaluation.  select_blk returns a member of its argument.",
+        "when the counter has reached 3*N, before a further evaluation.  select_blk (loop with invariant; the count of pending inputs is the cardinality of iconnections & set) "
+        "returns a member of its argument that has no more inputs pending inside the set than any other member - the evaluation order the 'few "
+        "paths' clause relies on.",
    note="Trusted: pyvc encoding, z3 (quantified, guarded style); assumptions wired(circuit) (C15), delivery guarantee G_set (C02), "
         "idem(b) per block class, FuncBlock functions deterministic.  Bounded (labelled, not proof): 'few-path DAGs are never "
         "reported unstable' and detection of rings / event feedback, by running ~4400 small circuits through the real simulator."),
@@ -158,7 +168,9 @@ CLAIMS = {
         "nothing; once taken, the guard is released on every exit edge (normal return, EventCond resolving to no event, unknown "
         "event, call-level TypeError, handler error, failed early initialisation) and all other guards are as before; the handler "
         "runs at most once, with the guard set; early initialisation runs with the guard lifted; a filter veto delivers nothing; "
-        "library handlers let delivery errors escape. Scan obligations: writers of the guard, places where it is lifted.",
+        "library handlers let delivery errors escape; Repeat._event forwards the original event inside its own handler before queueing the "
+        "repetitions (a loop closed through a Repeat block meets the guard); the FSM's one-chained-transition bookkeeping (_ctx_event and callees). "
+        "Scan obligations: writers of the guard, places where it is lifted.",
    note="Trusted: pyvc encoding, z3; interface contracts of handlers and init_sblock. The composition 'refused re-entry stops the "
         "simulation through any chain of blocks' is a textual argument over the two function-level facts (see evidence.unclaimed)."),
  'C12': dict(
@@ -208,8 +220,11 @@ CLAIMS = {
         "_BlockResolver._check_type/register/resolve; lemma one_inverter; scans: writers of _finalized, oconnections/iconnections mutated "
         "only by _finalize, the resolver's registration sites.",
    note="Trusted: pyvc encoding, z3; Const and Block are disjoint classes.  Bounded only (206 small circuits + error families): the converse "
-        "for user-created inverters (processed in both passes), 'no block is created in the second pass', CBlock.connect/"
-        "check_signature/get_conf."),
+        "for user-created inverters (processed in both passes), 'no block is created in the second pass', CBlock.check_signature/"
+        "get_conf.  CBlock.connect (exactly what was given is stored: unnamed inputs as the group '_', named groups as tuples; refusals "
+        "when frozen, connected before, nothing given, reserved name, a group among the unnamed inputs), CBlock.input_signature "
+        "(one entry per input name: group size or None) and Event.__init__ (every destination, by name or object, is registered with the "
+        "resolver as an SBlock reference) are under contract."),
  'C16': dict(
    text="Event.send (filter loop with an inductive invariant over the pipeline fold), not_from_undef, Edge, Delta, IfOutput, "
         "IfNotIitialized, every DataEdit edit closure (add, setdefault, add_output, copy, rename, delete, permit, modify), the eight "
